@@ -27,14 +27,21 @@ type caseC10 struct {
 	Scale  int      `json:"scale,omitempty"`
 	ScOp   string   `json:"scop,omitempty"`
 	Prefix int      `json:"prefix,omitempty"`
+	Wrap   int      `json:"wrap,omitempty"` // context of the long short-circuit expression, see gen.WrapShortCircuit
+	Term   int      `json:"term,omitempty"` // repeated term, see gen.JumpLimitExprT
 	Plant  []string `json:"plant,omitempty"`
 }
 
-func scaleProg(op string, prefix, terms int) *gen.Prog {
-	return &gen.Prog{Stmts: []*gen.Stmt{
-		{K: "print", E: gen.JumpLimitExpr(op, prefix, terms)},
+func scaleProg(op string, prefix, terms, wrap, term int) *gen.Prog {
+	e := gen.WrapShortCircuit(gen.JumpLimitExprT(op, prefix, terms, term), op, wrap)
+	stmts := []*gen.Stmt{
+		{K: "print", E: e},
 		{K: "print", E: &gen.Expr{K: "int", T: "7"}},
-	}}
+	}
+	if term == 1 {
+		stmts = append([]*gen.Stmt{{K: "var", Name: "v", E: &gen.Expr{K: "int", T: "1"}}}, stmts...)
+	}
+	return &gen.Prog{Stmts: stmts}
 }
 
 var tosMaxRe = regexp.MustCompile(`xstats\.tosMax:\s+(\d+)`)
@@ -43,7 +50,7 @@ func checkC10(c caseC10) (viol string, nontrivial bool, feats []string) {
 	src := c.Src
 	if c.Scale > 0 {
 		// prefix + n*(ONE ADD) bytes of skipped code
-		r := gen.RenderProg(scaleProg(c.ScOp, c.Prefix, c.Scale))
+		r := gen.RenderProg(scaleProg(c.ScOp, c.Prefix, c.Scale, c.Wrap, c.Term))
 		src, _ = gen.Render(r.Toks, gen.PlainLayout(r.Toks))
 		feats = append(feats, "family:jump-limit")
 	} else {
@@ -159,13 +166,20 @@ func TestC10(t *testing.T) {
 	}
 	rapid.Check(t, func(t *rapid.T) {
 		var c caseC10
-		if gen.Chance(t, 2, "limitfamily") {
+		if gen.Chance(t, 5, "limitfamily") {
 			c.ScOp = gen.Pick(t, "scop", []string{"and", "or"})
 			// skipped code = 1+2n bytes; the jump also spans nothing else for
 			// 'and' (POP is before), so n around 32767 puts it at the limit
 			c.Prefix = gen.Int(t, 0, 4, "prefix")
-			c.Scale = 32767 + gen.Int(t, -40, 40, "delta")
-			c.Src = fmt.Sprintf("<print %s-family, prefix kind %d, %d terms>", c.ScOp, c.Prefix, c.Scale)
+			c.Term = gen.Uniform(t, 3, "term")
+			if c.Term == 0 {
+				c.Scale = 32767 + gen.Int(t, -14, 14, "delta")
+			} else {
+				// three bytes of code per term
+				c.Scale = 21845 + gen.Int(t, -9, 9, "delta3")
+			}
+			c.Wrap = gen.Uniform(t, 6, "wrap")
+			c.Src = fmt.Sprintf("<print %s-family, prefix kind %d, %d terms of kind %d, context %d>", c.ScOp, c.Prefix, c.Scale, c.Term, c.Wrap)
 		} else {
 			p, feat := gen.GenProg(t, cfgC10(t))
 			if gen.Chance(t, 3, "special") {
@@ -191,3 +205,33 @@ func TestC10(t *testing.T) {
 }
 
 func TestReplayC10(t *testing.T) { replayOnly(t); TestC10(t) }
+
+// TestC10Sweeps enumerates the operand-value sub-space: for every k in 0..300
+// and every statement shape of gen.OperandSweepProg the program whose
+// boundary instructions carry the operand k (slot or constant index), so that
+// an operand byte takes every value an opcode has, and every value around
+// the one-byte/two-byte operand boundary.
+func TestC10Sweeps(t *testing.T) {
+	if !firstShard() || replayPath() != "" {
+		t.Skip("runs in the first shard only")
+	}
+	rec := harness.Get("C10")
+	rec.SetScope("sweeps")
+	n := 0
+	for k := 0; k <= 300; k++ {
+		for kind := 0; kind < gen.OperandSweepKinds; kind++ {
+			p := gen.OperandSweepProg(k, kind)
+			r := gen.RenderProg(p)
+			lay := gen.PlainLayout(r.Toks)
+			src, _ := renderChecked(r.Toks, lay)
+			c := caseC10{caseProg: caseProg{Prog: p, Layout: lay, Src: src}}
+			viol, _, _ := checkC10(c)
+			n++
+			if viol != "" {
+				rec.Fail(t, c, "operand sweep k=%d kind=%d: %s\nsource:\n%s", k, kind, viol, clip(src, 600))
+			}
+		}
+	}
+	rec.Count("sweep:operand-value-programs", n)
+	rec.SetExtra("exhaustive_subspace", "operand values 0..300 x 10 statement shapes in last position of a scope (gen.OperandSweepProg)")
+}
